@@ -165,6 +165,57 @@ static void case_cell(H3Index a, int with_boundary) {
                 vf_violation("non-neighbour", "cellsToDirectedEdge", key ^ vf_mix(it.h) ^ 9, "", "siblings (%016" PRIx64 ", %016" PRIx64 ") not adjacent: rc=%u expected E_NOT_NEIGHBORS", a, it.h, er);
         }
     }
+    /* cells of another resolution are never neighbours (the neighbour relation of the statement lives within one resolution):
+     * the origin's parent, centre child, a neighbour's parent and centre child, its base cell, a far cell and structured far
+     * cells of the same resolution (same digits on another base cell, same tail under other leading digits) */
+    {
+        H3Index others[12];
+        int no = 0;
+        if (A.res > 0) others[no++] = ref_parent(a, A.res - 1);
+        if (A.res > 0) others[no++] = ref_parent(a, 0);
+        if (A.res < 15) others[no++] = vf_set_res(vf_set_digit(a, A.res + 1, 0), A.res + 1);
+        if (A.res < 15) others[no++] = vf_set_res(vf_set_digit(a, A.res + 1, 3), A.res + 1);
+        H3Index nbv[MAX_CELL_BNDRY_VERTS];
+        int m = vf_geo_neighbors_cached(a, nbv);
+        if (m > 0) {
+            H3Index nb = nbv[(int)(vf_mix(a) % (uint64_t)m)];
+            if (A.res > 0) others[no++] = ref_parent(nb, A.res - 1);
+            if (A.res < 15) others[no++] = vf_set_res(vf_set_digit(nb, A.res + 1, 0), A.res + 1);
+        }
+        for (int i = 0; i < no; i++) {
+            H3Index e = 0;
+            H3Error er = cellsToDirectedEdge(a, others[i], &e);
+            n_non++;
+            vf_add("non_neighbour.other_resolution", 1);
+            if (er != E_NOT_NEIGHBORS)
+                vf_violation("non-neighbour", "cellsToDirectedEdge", key ^ vf_mix(others[i]) ^ 11, "", "cellsToDirectedEdge(%016" PRIx64 " (res %d), %016" PRIx64 " (res %d)) rc=%u, expected E_NOT_NEIGHBORS(11): cells of different resolutions are not neighbours", a, A.res,
+                             others[i], VF_RES(others[i]), er);
+        }
+        /* same resolution, far away, digit-wise similar */
+        H3Index far[3];
+        int nf = 0;
+        int bc = (int)((a >> 45) & 127), bc2 = (bc + 16 + (int)(vf_mix(a ^ 5) % 90)) % 122;
+        far[nf++] = (a & ~((uint64_t)127 << 45)) | ((uint64_t)bc2 << 45);
+        if (A.res >= 3) {
+            H3Index t = a;
+            for (int q = 1; q <= A.res - 2; q++) t = vf_set_digit(t, q, (int)(vf_mix(a + (uint64_t)q) % 7));
+            far[nf++] = t;
+        }
+        for (int i = 0; i < nf; i++) {
+            if (!ref_is_valid_cell(far[i]) || far[i] == a) continue;
+            int64_t *dd = vf_map_get(&dist, far[i]);
+            if (dd) continue; /* inside the explored 2-ball: judged above */
+            LatLng ga, gb;
+            if (cellToLatLng(a, &ga) || cellToLatLng(far[i], &gb)) continue;
+            if (v3_angle(v3_from_ll(ga), v3_from_ll(gb)) < 4 * A.width) continue; /* not clearly far */
+            H3Index e = 0;
+            H3Error er = cellsToDirectedEdge(a, far[i], &e);
+            n_non++;
+            vf_add("non_neighbour.structured_far", 1);
+            if (er != E_NOT_NEIGHBORS)
+                vf_violation("non-neighbour", "cellsToDirectedEdge", key ^ vf_mix(far[i]) ^ 13, "", "cellsToDirectedEdge(%016" PRIx64 ", %016" PRIx64 ") rc=%u for cells many widths apart, expected E_NOT_NEIGHBORS(11)", a, far[i], er);
+        }
+    }
     /* originToDirectedEdges lists exactly these */
     H3Index *ed = vf_buf_new(6 * 8, 0xEE);
     H3Error er = originToDirectedEdges(a, ed);
